@@ -775,7 +775,13 @@ impl InferContext {
         let mut sum_types: std::collections::HashMap<Symbol, TypeNodeId> =
             std::collections::HashMap::new();
 
-        for (type_name, decl_info) in type_declarations {
+        // Visit the declarations in a fixed order (by the spelling of the type name): the map's own
+        // iteration order changes from run to run, and when two types declare a constructor of the
+        // same name the one visited last keeps the name.
+        let mut ordered_declarations: Vec<_> = type_declarations.iter().collect();
+        ordered_declarations.sort_by(|a, b| a.0.as_str().cmp(b.0.as_str()));
+
+        for &(type_name, decl_info) in &ordered_declarations {
             let variants = &decl_info.variants;
             let variant_data: Vec<(Symbol, Option<TypeNodeId>)> =
                 variants.iter().map(|v| (v.name, v.payload)).collect();
@@ -793,7 +799,7 @@ impl InferContext {
         }
 
         // Second pass: For recursive types, wrap self-references in Boxed
-        for (type_name, decl_info) in type_declarations {
+        for &(type_name, decl_info) in &ordered_declarations {
             if !decl_info.is_recursive {
                 continue;
             }
@@ -837,7 +843,7 @@ impl InferContext {
         }
 
         // Register constructors for non-recursive types
-        for (type_name, decl_info) in type_declarations {
+        for &(type_name, decl_info) in &ordered_declarations {
             if decl_info.is_recursive {
                 continue;
             }
